@@ -66,13 +66,13 @@ def main(ctx):
                           (rel, p["a"], p["b"], p["items"][:4],
                            "running at the same time" if p["kind"] == "overlap" else "in different orders in different runs"),
                           dict(source=rel, flags=flags, problem=p))
-        gpath = ctx.path("graphs", "%s.json" % rel.replace("/", "_"))
+        gpath = ctx.path("graphs", "%s.json" % (rel + "".join("+" + f for f in flags)).replace("/", "_"))
         json.dump(gj, open(gpath, "w"))
         graphs_by_src[key] = (gj, gpath)
         n_conf = sum(len(b) for b in gj["before"])
         ev.nontrivial_add("%s:%d jobs:%d ordered conflict pairs" % (rel, gj["n"], n_conf))
         # all recorded builds of this source go into one log, separated by Reset events (one JVM start)
-        tpath = ctx.path("sched", "%s.ndjson" % rel.replace("/", "_"))
+        tpath = ctx.path("sched", "%s.ndjson" % (rel + "".join("+" + f for f in flags)).replace("/", "_"))
         tr = []
         for k, (run, g) in enumerate(zip(good, gs)):
             if k:
@@ -137,7 +137,7 @@ def main(ctx):
             if real < 3:
                 continue
             sg = graphs.slice_graph(gj, c)
-            sp = ctx.path("slices", "%s_%d.json" % (key[0].replace("/", "_"), n))
+            sp = ctx.path("slices", "%s_%d.json" % ((key[0] + "".join("+" + f for f in key[1])).replace("/", "_"), n))
             json.dump(sg, open(sp, "w"))
             sl_jobs.append((key[0], name, real, sp))
     # biggest first, bounded number
